@@ -197,17 +197,39 @@ theorem kty_matches_params :
     (∀ k, (new k).kty = (new k).family) ∧
     (∀ f ms, (fromParams f ms).kty = (fromParams f ms).family) ∧
     (∀ j k, (setKty j k).kty = (setKty j k).family) ∧
+    (∀ j f ms, (setParamsFull j f ms).2 = false → (setParamsFull j f ms).1 = j) ∧
+    (∀ j f ms, (setParamsFull j f ms).2 = true ↔ j.kty = f) ∧
     (∀ j f ms j', j.kty = j.family → setParams j f ms = some j' → j'.kty = j'.family) ∧
     (∀ j p, toPublic j = some p → p.kty = p.family) ∧
     (∀ k obj j, fromJson k obj = some j → j.kty = j.family) := by
-  refine ⟨fun _ => rfl, fun _ _ => rfl, fun _ _ => rfl, ?_, ?_, ?_⟩
+  have arms : ∀ a b : Family, setParamsArms.contains (a.tag, b.tag) = true ↔ a = b := by
+    intro a b; cases a <;> cases b <;> decide
+  have hfull : ∀ (j : Jwk) (f : Family) (ms : List (String × String)), (setParamsFull j f ms).2 = true ↔ j.kty = f := by
+    intro j f ms
+    unfold setParamsFull
+    by_cases hc : setParamsArms.contains (j.kty.tag, f.tag) = true
+    · rw [if_pos hc]; exact ⟨fun _ => (arms _ _).1 hc, fun _ => rfl⟩
+    · rw [if_neg hc]; exact ⟨fun h => Bool.noConfusion h, fun e => absurd ((arms _ _).2 e) hc⟩
+  refine ⟨fun _ => rfl, fun _ _ => rfl, ?_, ?_, hfull, ?_, ?_, ?_⟩
+  · intro j k
+    have : setKtyResetsToNewType = true := rfl
+    unfold setKty; simp [this]
+  · intro j f ms h
+    unfold setParamsFull at h ⊢
+    by_cases hc : setParamsArms.contains (j.kty.tag, f.tag) = true
+    · rw [if_pos hc] at h; cases h
+    · rw [if_neg hc]
   · intro j f ms j' _ h
     unfold setParams at h
-    split at h
-    · rename_i hk
-      injection h with h; subst h
-      simpa using hk
-    · cases h
+    by_cases hs : (setParamsFull j f ms).2 = true
+    · simp only [hs, ↓reduceIte, Option.some.injEq] at h
+      have hk := (hfull j f ms).1 hs
+      subst h
+      unfold setParamsFull
+      rw [if_pos ((arms j.kty f).2 hk)]
+      exact hk
+    · simp only [hs, Bool.false_eq_true, ↓reduceIte] at h
+      cases h
   · intro j p h
     obtain ⟨h1, h2, _⟩ := toPublic_keeps j p h
     rw [h1, h2]
